@@ -11,7 +11,9 @@ mod tap;
 
 fn main() {
     // panics of the library are caught with catch_unwind and reported as observations
-    std::panic::set_hook(Box::new(|_| {}));
+    if std::env::var("VERIF_PANIC_VERBOSE").is_err() {
+        std::panic::set_hook(Box::new(|_| {}));
+    }
     let args: Vec<String> = std::env::args().collect();
     if args.len() < 2 {
         eprintln!("usage: verif-harness <engine> [args]");
